@@ -944,76 +944,56 @@ theorem no_panic_mergeCellHit' (c r : Int) (rect : List Int) : (mergeCellHit c r
 
 /-! merged-cell matrix -/
 
-def RcPos (r : Rc) : Prop := 1 ≤ r.x1 ∧ 1 ≤ r.y1 ∧ 1 ≤ r.x2 ∧ 1 ≤ r.y2
-
-theorem overlapRange_ge (rs : List Rc) : ∀ (acc : Int × Int),
-    acc.1 ≤ (overlapRange rs acc).1 ∧ acc.2 ≤ (overlapRange rs acc).2 ∧
-    ∀ r ∈ rs, r.y1 ≤ (overlapRange rs acc).1 ∧ r.y2 ≤ (overlapRange rs acc).1 ∧
-              r.x1 ≤ (overlapRange rs acc).2 ∧ r.x2 ≤ (overlapRange rs acc).2 := by
-  induction rs with
-  | nil => intro acc; exact ⟨Int.le_refl _, Int.le_refl _, fun r h => by cases h⟩
+theorem filter_split_length {α : Type} (p : α → Bool) (l : List α) :
+    (l.filter p).length + (l.filter fun c => !p c).length = l.length := by
+  induction l with
+  | nil => rfl
   | cons x xs ih =>
+    cases h : p x <;> simp [List.filter, h] <;> omega
+
+/-- one `settle` never lengthens the list, and with enough fuel it ends with no listed rectangle
+overlapping the result -/
+theorem settle_spec : ∀ (fuel : Nat) (r : Rc) (cells : List Rc), cells.length < fuel →
+    (settle fuel r cells).2.length ≤ cells.length ∧
+    ∀ c ∈ (settle fuel r cells).2, isOverlapRc (settle fuel r cells).1 c = false := by
+  intro fuel
+  induction fuel with
+  | zero => intro r cells h; omega
+  | succ f ih =>
+    intro r cells h
+    unfold settle
+    simp only
+    split
+    · rename_i he
+      refine ⟨Nat.le_refl _, ?_⟩
+      intro c hc
+      have hnil : cells.filter (isOverlapRc r) = [] := List.isEmpty_iff.mp he
+      cases ho : isOverlapRc r c with
+      | false => rfl
+      | true =>
+        have : c ∈ cells.filter (isOverlapRc r) := List.mem_filter.mpr ⟨hc, ho⟩
+        rw [hnil] at this; cases this
+    · rename_i hne
+      have hs := filter_split_length (isOverlapRc r) cells
+      have hpos : 0 < (cells.filter (isOverlapRc r)).length := by
+        cases hl : cells.filter (isOverlapRc r) with
+        | nil => simp [hl] at hne
+        | cons _ _ => simp
+      have hlt : (cells.filter fun c => !isOverlapRc r c).length < f := by omega
+      obtain ⟨h1, h2⟩ := ih ((cells.filter (isOverlapRc r)).foldl unionRc r) (cells.filter fun c => !isOverlapRc r c) hlt
+      exact ⟨by omega, h2⟩
+
+theorem normalise_length (rs : List Rc) : ∀ (acc : List Rc), (normalise rs acc).length ≤ acc.length + rs.length := by
+  induction rs with
+  | nil => intro acc; simp [normalise]
+  | cons r rest ih =>
     intro acc
-    obtain ⟨row, col⟩ := acc
-    unfold overlapRange
+    unfold normalise
     simp only
-    have hr : row ≤ (if x.y2 > (if x.y1 > row then x.y1 else row) then x.y2 else (if x.y1 > row then x.y1 else row)) ∧
-        x.y1 ≤ (if x.y2 > (if x.y1 > row then x.y1 else row) then x.y2 else (if x.y1 > row then x.y1 else row)) ∧
-        x.y2 ≤ (if x.y2 > (if x.y1 > row then x.y1 else row) then x.y2 else (if x.y1 > row then x.y1 else row)) := by
-      split <;> split <;> omega
-    have hc : col ≤ (if x.x2 > (if x.x1 > col then x.x1 else col) then x.x2 else (if x.x1 > col then x.x1 else col)) ∧
-        x.x1 ≤ (if x.x2 > (if x.x1 > col then x.x1 else col) then x.x2 else (if x.x1 > col then x.x1 else col)) ∧
-        x.x2 ≤ (if x.x2 > (if x.x1 > col then x.x1 else col) then x.x2 else (if x.x1 > col then x.x1 else col)) := by
-      split <;> split <;> omega
-    generalize (if x.y2 > (if x.y1 > row then x.y1 else row) then x.y2 else (if x.y1 > row then x.y1 else row)) = row' at hr ⊢
-    generalize (if x.x2 > (if x.x1 > col then x.x1 else col) then x.x2 else (if x.x1 > col then x.x1 else col)) = col' at hc ⊢
-    obtain ⟨h1, h2, h3⟩ := ih (row', col')
-    simp only at h1 h2
-    refine ⟨by omega, by omega, ?_⟩
-    intro r hr'
-    cases hr' with
-    | head => exact ⟨by omega, by omega, by omega, by omega⟩
-    | tail _ hm => exact h3 r hm
-
-theorem overlapRange_le (B C : Int) (rs : List Rc) : ∀ (acc : Int × Int), acc.1 ≤ B → acc.2 ≤ C →
-    (∀ r ∈ rs, r.y1 ≤ B ∧ r.y2 ≤ B ∧ r.x1 ≤ C ∧ r.x2 ≤ C) →
-    (overlapRange rs acc).1 ≤ B ∧ (overlapRange rs acc).2 ≤ C := by
-  induction rs with
-  | nil => intro acc h1 h2 _; exact ⟨h1, h2⟩
-  | cons x xs ih =>
-    intro acc h1 h2 h
-    obtain ⟨row, col⟩ := acc
-    have hx := h x List.mem_cons_self
-    unfold overlapRange
-    simp only
-    apply ih
-    · simp only at h1 ⊢; split <;> split <;> omega
-    · simp only at h2 ⊢; split <;> split <;> omega
-    · intro r hr; exact h r (List.mem_cons_of_mem _ hr)
-
-theorem no_panic_mergeMatrix' (rs : List Rc) (h : ∀ r ∈ rs, RcPos r) : (mergeMatrix rs).isPanic = false := by
-  unfold mergeMatrix
-  have hb := overlapRange_ge rs (0, 0)
-  generalize overlapRange rs (0, 0) = res at hb
-  obtain ⟨rows, cols⟩ := res
-  simp only at hb ⊢
-  split
-  · rfl
-  · split
-    · omega
-    · have : rs.all (paintOK rows cols) = true := by
-        rw [List.all_eq_true]
-        intro r hr
-        have hp := h r hr
-        have hm := hb.2.2 r hr
-        obtain ⟨p1, p2, p3, p4⟩ := hp
-        unfold paintOK
-        simp only [Bool.and_eq_true, decide_eq_true_eq]
-        refine ⟨⟨⟨⟨?_, by omega⟩, by omega⟩, by omega⟩, by omega⟩
-        split
-        · simp only [Bool.and_eq_true, decide_eq_true_eq]; omega
-        · rfl
-      rw [this]; rfl
+    have h := (settle_spec (acc.length + 1) (sortRc r) acc (by omega)).1
+    have := ih ((settle (acc.length + 1) (sortRc r) acc).2 ++ [(settle (acc.length + 1) (sortRc r) acc).1])
+    simp only [List.length_append, List.length_cons, List.length_nil] at this ⊢
+    omega
 
 /-! compound file -/
 
@@ -1089,23 +1069,20 @@ theorem no_panic_padChunk' (n : Nat) (b : Int) (hb : b = 16) : (padChunk n b).is
   simp only
   split <;> rfl
 
-theorem no_panic_pkgLoop' (i : AgIn) (hb : i.blockSize = 16) (h8 : 8 ≤ i.pkgLen) (ht : tailOK i.pkgLen = true) :
-    ∀ (fuel e : Nat), (e % 4096 = 0 ∨ e = i.pkgLen) → (pkgLoop i fuel e).isPanic = false := by
+theorem no_panic_pkgLoop' (i : AgIn) (hb : i.blockSize = 16) :
+    ∀ (fuel start : Nat), (pkgLoop i fuel start).isPanic = false := by
   intro fuel
   induction fuel with
-  | zero => intro e _; rfl
+  | zero => intro s; rfl
   | succ f ih =>
-    intro e he
+    intro s
     unfold pkgLoop
+    simp only
     split
     · rename_i hlt
-      simp only
-      have hmod : e % 4096 = 0 := by omega
-      simp only [tailOK, Bool.or_eq_true, decide_eq_true_eq] at ht
-      have hs : sliceOK i.pkgLen (e + 8) (if (if e + 4096 > i.pkgLen then i.pkgLen else e + 4096) + 8 < i.pkgLen
-          then (if e + 4096 > i.pkgLen then i.pkgLen else e + 4096) + 8 else (if e + 4096 > i.pkgLen then i.pkgLen else e + 4096)) = true := by
+      have hs : sliceOK (i.pkgLen - 8) s (if s + 4096 > i.pkgLen - 8 then i.pkgLen - 8 else s + 4096) = true := by
         simp only [sliceOK, Bool.and_eq_true, decide_eq_true_eq]
-        split <;> split <;> omega
+        split <;> omega
       rw [hs]
       simp only [not_true_eq_false, if_false]
       apply bind_no_panic _ _ (no_panic_padChunk' _ _ hb)
@@ -1114,10 +1091,8 @@ theorem no_panic_pkgLoop' (i : AgIn) (hb : i.blockSize = 16) (h8 : 8 ≤ i.pkgLe
       intro iv _
       apply bind_no_panic _ _ (no_panic_cbcDecrypt' _ _ _)
       intro _ _
-      apply ih
-      split <;> omega
+      exact ih _
     · rfl
-
 
 theorem targetFrom_bound (rowNum : Int) : ∀ (n k : Nat) (t : List Cell),
     targetFrom rowNum k n = some t → n = 0 ∨ k + n ≤ Facts.MaxColumns := by
@@ -1206,5 +1181,43 @@ theorem checkRowOne_width (rowNum : Int) (rw rw' : Row) (h : checkRowOne rowNum 
     | err => rw [hs] at h; simp [Outcome.bind] at h
     | panic => rw [hs] at h; simp [Outcome.bind] at h
   · simp only [Outcome.ok.injEq] at h; subst h; right; simpa using hl
+
+theorem wrap64_range (x : Int) (h0 : 0 ≤ x) (h1 : x < 18446744073709551616) :
+    (x < 9223372036854775808 → wrap64 x = x) ∧ (9223372036854775808 ≤ x → wrap64 x < 0) := by
+  unfold wrap64
+  simp only
+  have hm : x % 18446744073709551616 = x := Int.emod_eq_of_lt h0 h1
+  rw [hm]
+  constructor
+  · intro h; rw [if_neg (by omega)]
+  · intro h; rw [if_pos (by omega)]; omega
+
+/-- accepted ⇒ no declared size is negative and the true (unwrapped) sum stays within the limit -/
+theorem zipAccountI_sound (sizes : List Int) : ∀ (run limit : Int), 0 ≤ run → run ≤ limit →
+    limit < 9223372036854775808 → (∀ s ∈ sizes, s < 9223372036854775808) →
+    zipAccountI sizes run limit = true → (∀ s ∈ sizes, 0 ≤ s) ∧ run + sizes.sum ≤ limit := by
+  induction sizes with
+  | nil => intro run limit _ h _ _ _; simp; exact h
+  | cons x xs ih =>
+    intro run limit h0 h1 hl hs h
+    have hx := hs x List.mem_cons_self
+    unfold zipAccountI at h
+    simp only at h
+    split at h
+    · cases h
+    · rename_i hg
+      have hxn : 0 ≤ x := by omega
+      have hw := wrap64_range (run + x) (by omega) (by omega)
+      by_cases hbig : run + x < 9223372036854775808
+      · have he := hw.1 hbig
+        rw [he] at h hg
+        obtain ⟨a, b⟩ := ih (run + x) limit (by omega) (by omega) hl (fun s hm => hs s (List.mem_cons_of_mem _ hm)) h
+        refine ⟨?_, by simp only [List.sum_cons]; omega⟩
+        intro s hm
+        cases hm with
+        | head => exact hxn
+        | tail _ hm' => exact a s hm'
+      · have := hw.2 (by omega)
+        omega
 
 end XlModel.Decode
